@@ -37,6 +37,8 @@ class ResponseHandler(BaseProtocol, DataQueue[tuple[RawResponseMessage, StreamRe
         DataQueue.__init__(self, loop)
 
         self._should_close = False
+        # Parked in the connector's pool: nothing is expected from the peer.
+        self._idle = False
 
         self._payload: _Payload | None = None
         self._skip_payload = False
@@ -90,6 +92,10 @@ class ResponseHandler(BaseProtocol, DataQueue[tuple[RawResponseMessage, StreamRe
 
     def force_close(self) -> None:
         self._should_close = True
+
+    def mark_idle(self) -> None:
+        """Called by the connector when the connection goes back to the pool."""
+        self._idle = True
 
     def close(self) -> None:
         self._exception = None  # Break cyclic references
@@ -240,6 +246,7 @@ class ResponseHandler(BaseProtocol, DataQueue[tuple[RawResponseMessage, StreamRe
         max_field_size: int = 8190,
         max_headers: int = 128,
     ) -> None:
+        self._idle = False
         self._skip_payload = skip_payload
 
         self._read_timeout = read_timeout
@@ -299,6 +306,14 @@ class ResponseHandler(BaseProtocol, DataQueue[tuple[RawResponseMessage, StreamRe
             set_exception(self._payload, exc)
 
     def data_received(self, data: bytes) -> None:
+        if self._idle and data:
+            # Bytes that nobody asked for while the connection sits in the pool:
+            # they must not become (part of) the next response, drop the connection.
+            self._should_close = True
+            if self.transport is not None:
+                self.transport.close()
+            return
+
         # If no data, then we are resuming decompression. We haven't received
         # data from the socket, so we can avoid the reschedule overhead.
         if data:
